@@ -8,7 +8,9 @@ PATCH=$1; shift
 PROPS=${*:-$(jq -r '.checks[].property_id' /verif/MANIFEST.json | xargs)}
 if [ -n "$(git -C /repo status --porcelain)" ]; then echo "/repo is not clean"; exit 2; fi
 git -C /repo apply "$PATCH" || { echo "patch does not apply"; exit 2; }
-trap 'git -C /repo checkout -- . ; git -C /repo clean -fdq src' EXIT
+# evidence files are rewritten by every run: what a run against a patched tree writes is not kept
+EVBAK=$(mktemp -d); cp -a /verif/evidence/. "$EVBAK"/
+trap 'git -C /repo checkout -- . ; git -C /repo clean -fdq src; cp -a "$EVBAK"/. /verif/evidence/; rm -rf "$EVBAK"' EXIT
 cd /verif
 ./check setup > /tmp/try_patch_build.log 2>&1 || { echo "BUILD FAILED"; tail -30 /tmp/try_patch_build.log; exit 2; }
 for P in $PROPS; do
